@@ -49,7 +49,7 @@ func TestC01Random(t *testing.T) {
 	ns := []uint8{1, 2, 3, 1, 2, 3, 5, 20, 1, 2, 3, 254}
 	for i := 0; i < runs; i++ {
 		i := i
-		r := rng(int64(i))
+		r := rng(int64(i) + int64(envInt("VERIF_SALT", 0))*100000)
 		n := ns[i%len(ns)]
 		msgs := [2]int{2*int(n) + 3 + r.Intn(6), r.Intn(2*int(n) + 4)}
 		if n > 20 {
@@ -63,7 +63,7 @@ func TestC01Random(t *testing.T) {
 			1500 * time.Millisecond}[r.Intn(3)]
 		static := []time.Duration{0, time.Second, 300 * time.Millisecond}[r.Intn(3)]
 		until := time.Duration(5+r.Intn(40)) * time.Second
-		dec, faults := randomFaults(int64(i)+7777, pDrop, pDup, maxDelay, until)
+		dec, faults := randomFaults(int64(i)+7777+int64(envInt("VERIF_SALT", 0))*100000, pDrop, pDup, maxDelay, until)
 		sizes := r.Intn(3)
 		cfg := gbnrun.Config{
 			N:       n,
